@@ -258,9 +258,14 @@ def generate(repo):
         ne_guard = "    assert!(cfg!(target_endian = \"little\"));\n" if e == "ne" else ""
         variants = []
         for t in FIXED_TARGETS + GROW_TARGETS:
+            if t == "bm_arc" and fixed and W > 1:
+                continue  # growth of a shared-form BytesMut inside a put harness exhausts CBMC's memory (undecidable kind() test);
+                          # growth of that form is decided by the in-crate arc_reserve_* step harnesses
             if not fixed and t in GROW_TARGETS:
                 # nbytes becomes an allocation size in growable targets: concrete per harness
                 for nbc in range(0, 9):
+                    if t == "bm_arc" and nbc > 1:
+                        continue
                     variants.append((t, nbc))
             else:
                 variants.append((t, None))
